@@ -20,8 +20,8 @@ fn max_len(tier: Tier) -> u32 {
 
 fn n_random(tier: Tier) -> u64 {
     match tier {
-        Tier::Quick => 20_000,
-        Tier::Thorough => 1_000_000,
+        Tier::Quick => 150_000,
+        Tier::Thorough => 4_000_000,
     }
 }
 
